@@ -124,8 +124,11 @@ func (c *Channel) Close() error {
 
 	// Drain any pending requests.
 	go func() { c.wg.Wait(); close(c.rsp) }()
-	for range c.rsp {
-		// discard
+	for r := range c.rsp {
+		// discard, but do not leak the connection
+		if r.rsp != nil {
+			r.rsp.Body.Close()
+		}
 	}
 	return nil
 }
